@@ -248,6 +248,48 @@ Qed.
 Lemma mk_piece_inj c ty c' ty' : ty < 8 -> ty' < 8 -> mk_piece c ty = mk_piece c' ty' -> c = c' /\ ty = ty'.
 Proof. unfold mk_piece. lia. Qed.
 
+(** ** small facts used without [lia] in large contexts *)
+Lemma mkp_nz c ty : 1 <= ty -> mk_piece c ty <> 0.
+Proof. unfold mk_piece. lia. Qed.
+Lemma mkp_king_nz c : mk_piece c KING <> 0.
+Proof. apply mkp_nz. unfold KING. lia. Qed.
+Lemma flip_cases c : c < 2 -> (c = WHITE /\ flip c = BLACK) \/ (c = BLACK /\ flip c = WHITE).
+Proof. unfold flip, WHITE, BLACK. lia. Qed.
+Lemma flip_facts c : c < 2 -> flip c < 2 /\ flip c <> c /\ flip (flip c) = c.
+Proof. unfold flip. lia. Qed.
+Lemma mkp_colour_king c : colour_of (mk_piece c KING) = c.
+Proof. apply mk_piece_colour. unfold KING. lia. Qed.
+Lemma mkp_king_inj c c' ty : 1 <= ty <= 6 -> mk_piece c ty = mk_piece c' KING -> c = c' /\ ty = KING.
+Proof. intros H E. apply mk_piece_inj in E; [exact E|lia|unfold KING; lia]. Qed.
+
+(* both kings after a move that changes the squares f and t only *)
+Lemma two_kings_simple b b' c f t pc' K k0 :
+  (forall a, a < 64 -> at_ b' a = upd [(t, pc'); (f, 0)] b a) ->
+  c < 2 -> f < 64 -> t < 64 -> K < 64 -> k0 < 64 ->
+  at_ b K = mk_piece (flip c) KING -> (forall s, s < 64 -> at_ b s = mk_piece (flip c) KING -> s = K) ->
+  at_ b k0 = mk_piece c KING -> (forall s, s < 64 -> at_ b s = mk_piece c KING -> s = k0) ->
+  K <> f -> K <> t -> at_ b t <> mk_piece c KING ->
+  pc' <> mk_piece (flip c) KING ->
+  (pc' = mk_piece c KING <-> at_ b f = mk_piece c KING) ->
+  count_piece b' (mk_piece c KING) = 1%nat /\ count_piece b' (mk_piece (flip c) KING) = 1%nat.
+Proof.
+  intros Hat Hc Hf Ht HK Hk0 AK UK Ak0 Uk0 HKf HKt Htk Hpe Hpk. split.
+  - destruct (N.eq_dec (at_ b f) (mk_piece c KING)) as [Ekf|Ekf].
+    + apply (upd_king_moves b b' _ Hat _ k0 t Ht Uk0).
+      * assert (Efk : f = k0) by now apply Uk0. rewrite <- Efk. cbn [fsts map fst In]. right; left; reflexivity.
+      * cbn [upd]. rewrite N.eqb_refl. now apply Hpk.
+      * intros s v [E|[E|[]]] Ev; injection E as <- <-; [reflexivity|]. exfalso. symmetry in Ev. now apply mkp_king_nz in Ev.
+    + apply (upd_king_stays b b' _ Hat _ k0 Hk0 Ak0 Uk0).
+      * cbn [fsts map fst In]. intros [E|[E|[]]]; [rewrite <- E in Ak0; contradiction|rewrite <- E in Ak0; contradiction].
+      * intros s v [E|[E|[]]] Ev; injection E as <- <-.
+        -- apply Ekf. now apply Hpk.
+        -- symmetry in Ev. now apply mkp_king_nz in Ev.
+  - apply (upd_king_stays b b' _ Hat _ K HK AK UK).
+    + cbn [fsts map fst In]. intros [E|[E|[]]]; [apply HKt|apply HKf]; now symmetry.
+    + intros s v [E|[E|[]]] Ev; injection E as <- <-; [contradiction|].
+      symmetry in Ev. now apply mkp_king_nz in Ev.
+Qed.
+
 Section Make.
 Variable p : pos.
 Variable m : mv.
@@ -255,159 +297,92 @@ Hypothesis Hlp : legal_pos p = true.
 Hypothesis Hps : In m (pseudo p).
 Hypothesis His : is_legal p m = true.
 
-Let b := brd p.
-Let c := stm p.
-Let q := make p m.
-Let K := king_sq b (flip c).
-Let k0 := king_sq b c.
-
 Lemma Mw : wfp p. Proof. now apply legal_wfp. Qed.
-Lemma Mc : c < 2. Proof. exact (wf_stm p Mw). Qed.
-Lemma Mlf : lfacts p K. Proof. now apply legal_pos_facts. Qed.
-Lemma Mlen : length b = 64%nat. Proof. exact (wf_len p Mw). Qed.
-Lemma Mfc : flip c < 2 /\ flip c <> c /\ flip (flip c) = c.
-Proof. pose proof Mc. unfold flip. lia. Qed.
+Lemma Mc : stm p < 2. Proof. exact (wf_stm p Mw). Qed.
+Lemma Mlf : lfacts p (king_sq (brd p) (flip (stm p))). Proof. now apply legal_pos_facts. Qed.
+Lemma Mlen : length (brd p) = 64%nat. Proof. exact (wf_len p Mw). Qed.
 
 (* a pseudo-legal move never lands on the king of the side not to move *)
-Lemma no_king_capture : at_ b (mto m) <> mk_piece (flip c) KING.
+Lemma no_king_capture : at_ (brd p) (mto m) <> mk_piece (flip (stm p)) KING.
 Proof.
   intros E. pose proof Mlf as L. destruct (pseudo_inv p m Hps) as [Hf Ht Hnz Hcol Hto Hty|? ? ? ? ? ? H0 ?|kf kt rf bit em Hin -> Hk Hr Hem].
-  - fold b in Hnz, Hcol, Hto. fold c in Hcol, Hto. assert (Hnz' : at_ b (mto m) <> 0) by (rewrite E; unfold mk_piece, KING; lia).
+  - assert (Hnz' : at_ (brd p) (mto m) <> 0) by (rewrite E; apply mkp_king_nz).
     destruct Hto as [Hto|(_ & _ & Hatt)]; [contradiction|].
-    assert (mto m = K) by (apply (lf_Kuniq p K L); assumption). rewrite H in Hatt.
-    pose proof (lf_no p K L (mfrom m) Hf) as Hno. fold b in Hno. fold c in Hno. rewrite Hno in Hatt. discriminate.
-  - fold b in H0. rewrite H0 in E. unfold mk_piece, KING in E. lia.
+    assert (Ek : mto m = king_sq (brd p) (flip (stm p))) by (apply (lf_Kuniq p _ L); assumption).
+    rewrite Ek in Hatt. rewrite (lf_no p _ L (mfrom m) Hf) in Hatt. discriminate.
+  - rewrite H0 in E. symmetry in E. now apply mkp_king_nz in E.
   - cbn [mto] in E. assert (Hkt : In kt em).
     { apply castles_in in Hin. decompose [or] Hin; match goal with X : (_, _, _, _, _) = _ |- _ => injection X as -> -> -> -> -> end; cbn; auto. }
-    rewrite forallb_forall in Hem. specialize (Hem kt Hkt). fold b in Hem. apply N.eqb_eq in Hem. rewrite Hem in E.
-    unfold mk_piece, KING in E. lia.
+    rewrite forallb_forall in Hem. specialize (Hem kt Hkt). apply N.eqb_eq in Hem. rewrite Hem in E.
+    symmetry in E. now apply mkp_king_nz in E.
 Qed.
 
-(* the own king *)
-Lemma own_king : k0 < 64 /\ at_ b k0 = mk_piece c KING /\ (forall s, s < 64 -> at_ b s = mk_piece c KING -> s = k0).
-Proof. pose proof Mlf as L. destruct (lf_own_king p K L) as [A B]. repeat split; try assumption. exact (lf_own_uniq p K L). Qed.
-
 Lemma legal_rest :
-  length (brd q) = 64%nat /\ stm q < 2 /\ cr q < 16 /\ in_check_b (brd q) (flip (stm q)) = false.
+  length (brd (make p m)) = 64%nat /\ stm (make p m) < 2 /\ cr (make p m) < 16 /\
+  in_check_b (brd (make p m)) (flip (stm (make p m))) = false.
 Proof.
   pose proof (legal_pos_inv p Hlp) as (_ & _ & _ & _ & _ & Hcr & _).
+  destruct (flip_facts _ Mc) as (F1 & F2 & F3).
   split; [apply make_length; exact Mlen|]. split; [|split].
-  - unfold q. rewrite make_stm. apply Mfc.
-  - unfold q. rewrite make_cr. now apply ldiff_lt16.
-  - unfold q. rewrite make_stm. fold c. destruct Mfc as (_ & _ & ->).
-    unfold in_check_b. now apply legal_king_safe.
+  - rewrite make_stm. exact F1.
+  - rewrite make_cr. now apply ldiff_lt16.
+  - rewrite make_stm, F3. unfold in_check_b. now apply legal_king_safe.
 Qed.
 
 (** *** moves that change the from and the to square only *)
-Section Simple.
-Variables f t ty pc' : N.
-Hypothesis Ef : mfrom m = f.
-Hypothesis Et : mto m = t.
-Hypothesis Hf : f < 64.
-Hypothesis Ht : t < 64.
-Hypothesis Hty : 1 <= ty <= 6.
-Hypothesis Hatf : at_ b f = mk_piece c ty.
-Hypothesis Hmt : (mtype m = NORMAL /\ pc' = at_ b f) \/
-                 (mtype m = PROMOTION /\ ty = PAWN /\ 3 <= mprom m <= 6 /\ pc' = mk_piece c (mprom m)).
-Hypothesis Hto : at_ b t = 0 \/ (at_ b t <> 0 /\ colour_of (at_ b t) <> c).
-Hypothesis Hrank : type_of pc' = PAWN -> rank_of t <> 0 /\ rank_of t <> 7.
-Hypothesis Hep : ep_ok q = true.
-
-Let ch : list (N * N) := [(t, pc'); (f, 0)].
-
-Lemma simple_at : forall a, a < 64 -> at_ (brd q) a = upd ch b a.
+Lemma simple_legal f t ty pc' :
+  mfrom m = f -> mto m = t -> f < 64 -> t < 64 -> 1 <= ty <= 6 ->
+  at_ (brd p) f = mk_piece (stm p) ty ->
+  ((mtype m = NORMAL /\ pc' = at_ (brd p) f) \/
+   (mtype m = PROMOTION /\ ty = PAWN /\ 3 <= mprom m <= 6 /\ pc' = mk_piece (stm p) (mprom m))) ->
+  (at_ (brd p) t = 0 \/ (at_ (brd p) t <> 0 /\ colour_of (at_ (brd p) t) <> stm p)) ->
+  (type_of pc' = PAWN -> rank_of t <> 0 /\ rank_of t <> 7) ->
+  ep_ok (make p m) = true -> legal_pos (make p m) = true.
 Proof.
-  intros a Ha. unfold q. rewrite at_make_simple; fold b; try rewrite Ef; try rewrite Et; try assumption.
-  - cbn [upd ch]. destruct Hmt as [[-> ->]|(-> & _ & _ & ->)]; reflexivity.
-  - exact Mlen.
-  - destruct Hmt as [[-> _]|(-> & _)]; auto.
-Qed.
-
-Lemma pc'_facts : pc' <> 0 /\ colour_of pc' = c /\ In pc' valid_codes /\ (pc' = mk_piece c KING -> ty = KING /\ pc' = at_ b f).
-Proof.
-  pose proof Mc as Hc. destruct Hmt as [[_ ->]|(_ & Hp & Hpr & ->)].
-  - rewrite Hatf. split; [|split; [|split]].
-    + unfold mk_piece. lia.
-    + apply mk_piece_colour. lia.
-    + now apply valid_own_piece.
-    + intros E. apply mk_piece_inj in E; [|lia|unfold KING; lia]. tauto.
-  - split; [|split; [|split]].
-    + unfold mk_piece. lia.
-    + apply mk_piece_colour. lia.
-    + apply valid_own_piece; [exact Hc|lia].
-    + intros E. apply mk_piece_inj in E; [|lia|unfold KING; lia]. unfold KING in E. lia.
-Qed.
-
-Lemma simple_legal : legal_pos q = true.
-Proof.
+  intros Ef Et Hf Ht Hty Hatf Hmt Hto Hrank Hep.
   pose proof (legal_pos_inv p Hlp) as (_ & _ & _ & _ & _ & Hcr & _ & Hpr & Hro & _).
-  destruct legal_rest as (R1 & R2 & R3 & R4). destruct pc'_facts as (P1 & P2 & P3 & P4).
-  pose proof Mlf as L. pose proof Mc as Hc. destruct Mfc as (F1 & F2 & F3).
-  destruct own_king as (O1 & O2 & O3).
+  destruct legal_rest as (R1 & R2 & R3 & R4).
+  pose proof Mlf as L. pose proof Mc as Hc. destruct (flip_facts _ Hc) as (F1 & F2 & F3).
   pose proof no_king_capture as Hnk. rewrite Et in Hnk.
+  pose proof Mw as Hw. pose proof Mlen as Hlen.
+  set (b := brd p) in *. set (c := stm p) in *. set (q := make p m) in *.
+  set (K := king_sq b (flip c)) in *.
+  destruct (lf_own_king p K L) as [O1 O2]. pose proof (lf_own_uniq p K L) as O3. fold b c in O1, O2, O3.
+  set (k0 := king_sq b c) in *.
+  pose proof (lf_Klt p K L) as K1. pose proof (lf_Kat p K L) as K2. pose proof (lf_Kuniq p K L) as K3. fold b c in K2, K3.
+  assert (Hat : forall a, a < 64 -> at_ (brd q) a = upd [(t, pc'); (f, 0)] b a).
+  { intros a Ha. unfold q. rewrite at_make_simple; try rewrite Ef; try rewrite Et; try assumption.
+    - cbn [upd]. fold b. destruct Hmt as [[-> ->]|(-> & _ & _ & ->)]; reflexivity.
+    - destruct Hmt as [[-> _]|(-> & _)]; auto. }
+  assert (P : pc' <> 0 /\ colour_of pc' = c /\ In pc' valid_codes /\ (pc' = mk_piece c KING <-> at_ b f = mk_piece c KING)).
+  { clear - Hmt Hatf Hty Hc. destruct Hmt as [[_ ->]|(_ & Hp & Hpr & ->)].
+    - rewrite Hatf. split; [apply mkp_nz; lia|]. split; [apply mk_piece_colour; lia|]. split; [now apply valid_own_piece|tauto].
+    - split; [apply mkp_nz; lia|]. split; [apply mk_piece_colour; lia|]. split; [apply valid_own_piece; [exact Hc|lia]|].
+      rewrite Hatf. split; intros E; apply mk_piece_inj in E; try (unfold KING, PAWN in *; lia). }
+  destruct P as (P1 & P2 & P3 & P4).
   assert (HKf : K <> f).
-  { intros E. pose proof (lf_Kat p K L) as A. fold b c in A. rewrite E, Hatf in A.
-    apply mk_piece_inj in A; [|lia|unfold KING; lia]. destruct A as [A _]. congruence. }
-  assert (HKt : K <> t) by (intros E; apply Hnk; rewrite <- E; exact (lf_Kat p K L)).
+  { intros E. rewrite E, Hatf in K2. apply mkp_king_inj in K2; [|exact Hty]. destruct K2 as [K2 _]. now apply F2. }
+  assert (HKt : K <> t) by (intros E; apply Hnk; rewrite <- E; exact K2).
   assert (Hcol_t : at_ b t <> mk_piece c KING).
-  { intros E. destruct Hto as [Hz|[_ Hcl]]; [rewrite Hz in E; unfold mk_piece, KING in E; lia|].
-    rewrite E in Hcl. rewrite mk_piece_colour in Hcl by (unfold KING; lia). congruence. }
+  { intros E. destruct Hto as [Hz|[_ Hcl]]; [rewrite Hz in E; symmetry in E; now apply mkp_king_nz in E|].
+    rewrite E, mkp_colour_king in Hcl. now apply Hcl. }
+  assert (Hpe : pc' <> mk_piece (flip c) KING).
+  { intros E. rewrite E, mkp_colour_king in P2. now apply F2. }
+  destruct (two_kings_simple b (brd q) c f t pc' K k0 Hat Hc Hf Ht K1 O1 K2 K3 O2 O3 HKf HKt Hcol_t Hpe P4) as [C1 C2].
   apply legal_pos_intro; try assumption.
-  - apply (upd_codes b (brd q) ch simple_at); [exact (wf_codes p Mw)|].
+  - apply (upd_codes b (brd q) _ Hat); [exact (wf_codes p Hw)|].
     intros s v [E|[E|[]]]; injection E as <- <-; [exact P3|now left].
-  - (* white king *)
-    destruct (N.eq_dec c WHITE) as [Ec|Ec].
-    + (* the mover is White *)
-      rewrite <- Ec. destruct (N.eq_dec (at_ b f) (mk_piece c KING)) as [Ekf|Ekf].
-      * apply (upd_king_moves b (brd q) ch simple_at _ k0 t Ht O3).
-        -- assert (Efk : f = k0) by now apply O3. rewrite <- Efk. unfold fsts, ch. cbn [map fst In]. auto.
-        -- cbn [upd ch]. rewrite N.eqb_refl. destruct Hmt as [[_ ->]|(_ & Hp & _)]; [exact Ekf|].
-           rewrite Hatf in Ekf. apply mk_piece_inj in Ekf; [|lia|unfold KING; lia]. unfold KING, PAWN in *. lia.
-        -- intros s v [E|[E|[]]] Ev; injection E as <- <-; [reflexivity|]. unfold mk_piece, KING in Ev. lia.
-      * apply (upd_king_stays b (brd q) ch simple_at _ k0 O1 O2 O3).
-        -- unfold fsts, ch. cbn [map fst In]. intros [E|[E|[]]]; [rewrite <- E in O2; contradiction|rewrite <- E in O2; contradiction].
-        -- intros s v [E|[E|[]]] Ev; injection E as <- <-.
-           ++ destruct (P4 Ev) as [_ E2]. rewrite E2 in Ev. contradiction.
-           ++ unfold mk_piece, KING in Ev. lia.
-    + (* the mover is Black: the white king is the other king *)
-      assert (Efc : flip c = WHITE) by (unfold flip, WHITE in *; lia).
-      rewrite <- Efc. apply (upd_king_stays b (brd q) ch simple_at _ K (lf_Klt p K L) (lf_Kat p K L) (lf_Kuniq p K L)).
-      * unfold fsts, ch. cbn [map fst In]. intros [E|[E|[]]]; congruence.
-      * intros s v [E|[E|[]]] Ev; injection E as <- <-.
-        -- rewrite Ev in P2. rewrite mk_piece_colour in P2 by (unfold KING; lia). congruence.
-        -- unfold mk_piece, KING in Ev. lia.
-  - (* black king *)
-    destruct (N.eq_dec c BLACK) as [Ec|Ec].
-    + rewrite <- Ec. destruct (N.eq_dec (at_ b f) (mk_piece c KING)) as [Ekf|Ekf].
-      * apply (upd_king_moves b (brd q) ch simple_at _ k0 t Ht O3).
-        -- assert (Efk : f = k0) by now apply O3. rewrite <- Efk. unfold fsts, ch. cbn [map fst In]. auto.
-        -- cbn [upd ch]. rewrite N.eqb_refl. destruct Hmt as [[_ ->]|(_ & Hp & _)]; [exact Ekf|].
-           rewrite Hatf in Ekf. apply mk_piece_inj in Ekf; [|lia|unfold KING; lia]. unfold KING, PAWN in *. lia.
-        -- intros s v [E|[E|[]]] Ev; injection E as <- <-; [reflexivity|]. unfold mk_piece, KING in Ev. lia.
-      * apply (upd_king_stays b (brd q) ch simple_at _ k0 O1 O2 O3).
-        -- unfold fsts, ch. cbn [map fst In]. intros [E|[E|[]]]; [rewrite <- E in O2; contradiction|rewrite <- E in O2; contradiction].
-        -- intros s v [E|[E|[]]] Ev; injection E as <- <-.
-           ++ destruct (P4 Ev) as [_ E2]. rewrite E2 in Ev. contradiction.
-           ++ unfold mk_piece, KING in Ev. lia.
-    + assert (Efc : flip c = BLACK) by (unfold flip, BLACK in *; lia).
-      rewrite <- Efc. apply (upd_king_stays b (brd q) ch simple_at _ K (lf_Klt p K L) (lf_Kat p K L) (lf_Kuniq p K L)).
-      * unfold fsts, ch. cbn [map fst In]. intros [E|[E|[]]]; congruence.
-      * intros s v [E|[E|[]]] Ev; injection E as <- <-.
-        -- rewrite Ev in P2. rewrite mk_piece_colour in P2 by (unfold KING; lia). congruence.
-        -- unfold mk_piece, KING in Ev. lia.
-  - (* pawns *)
-    apply (upd_pawn_ranks b (brd q) ch simple_at).
+  - destruct (flip_cases c Hc) as [[E1 E2]|[E1 E2]]; [rewrite <- E1; exact C1|rewrite <- E2; exact C2].
+  - destruct (flip_cases c Hc) as [[E1 E2]|[E1 E2]]; [rewrite <- E2; exact C2|rewrite <- E1; exact C1].
+  - apply (upd_pawn_ranks b (brd q) _ Hat).
     + intros s Hs Hp. rewrite forallb_forall in Hpr. specialize (Hpr s (proj2 (in_squares64 s) Hs)).
-      unfold piece_at in Hpr. fold b in Hpr. rewrite Hp in Hpr. lia.
+      unfold piece_at in Hpr. fold b in Hpr. rewrite Hp in Hpr. clear - Hpr. lia.
     + intros s v [E|[E|[]]] Hp; injection E as <- <-; [now apply Hrank|]. cbn in Hp. discriminate.
-  - (* castling rights *)
-    apply (upd_rights_ok p q ch f t Hcr Hf Ht).
+  - apply (upd_rights_ok p q _ f t Hcr Hf Ht).
     + unfold q. now rewrite make_cr, Ef, Et.
-    + exact simple_at.
-    + intros kf kt rf bit em _ _ A2 A3 A4 A5. unfold fsts, ch. cbn [map fst In]. split; intros [E|[E|[]]]; congruence.
+    + exact Hat.
+    + intros kf kt rf bit em _ _ A2 A3 A4 A5. cbn [fsts map fst In]. split; intros [E|[E|[]]]; congruence.
     + exact Hro.
 Qed.
-
-End Simple.
 
 End Make.
